@@ -507,7 +507,13 @@ def read_tables() -> dict:
     port = QMI_Context.DEFAULT_UDP_RESPONDER_PORT
     if not isinstance(port, int):
         raise TranslatorError("DEFAULT_UDP_RESPONDER_PORT is not an int")
-    return {"ifaces": ifaces, "udp_reserved": port}
+    # the exception class itself: the model treats `raise QMI_TransportDescriptorException(text, ...)` as atomic, which is
+    # CPython's behaviour for a class that inherits BaseException's constructor and string conversion unchanged
+    plain = True
+    for k in im.Descr.__mro__:
+        if k.__module__.startswith("qmi.") and any(n in vars(k) for n in ("__init__", "__new__", "__str__", "__repr__", "__reduce__", "args")):
+            plain = False
+    return {"ifaces": ifaces, "udp_reserved": port, "exc_plain": plain}
 
 
 def check_python_assumptions() -> None:
@@ -588,6 +594,10 @@ def render_gen(t: dict) -> str:
         out.append(f"    ctorLinux := {ctor(i['linux'])},")
         out.append(f"    ctorWin := {ctor(i['win'])} }}")
         out.append("")
+    out.append("/-- `QMI_TransportDescriptorException` and its qmi base classes define no `__init__` / `__new__` / `__str__` / `__repr__`:")
+    out.append("constructing it from any message text cannot raise and keeps the text -/")
+    out.append(f"def descriptorExceptionPlain : Bool := {'true' if t.get('exc_plain') else 'false'}")
+    out.append("")
     out.append("def env : Env :=")
     out.append(f"  {{ ifaces := [{', '.join(i['name'] for i in t['ifaces'])}],")
     out.append(f"    localhostAddr := {lean_str(LOCALHOST_ADDR)} }}")
@@ -613,8 +623,12 @@ def encodable(s: str) -> bool:
     return not any(0xd800 <= ord(c) < 0xe000 for c in s)
 
 
+_OTHER_OBJECTS = {"dict": lambda: {}, "list": lambda: [], "tuple": lambda: (), "bytes": lambda: b"{x}", "set": lambda: set(),
+                  "dict1": lambda: {"{a}": "%s"}, "obj": lambda: object}
+
+
 def enc_tagged(tag: str, payload) -> str:
-    if tag == "n":
+    if tag in ("n", "o"):                 # an object of no declared type behaves like None for the model
         return "n"
     if tag == "i":
         return f"i:{payload}"
@@ -626,6 +640,8 @@ def enc_tagged(tag: str, payload) -> str:
 def py_of_tagged(tag: str, payload):
     if tag == "n":
         return None
+    if tag == "o":
+        return _OTHER_OBJECTS[payload]()
     if tag == "f":
         return float(payload)
     return payload
@@ -854,6 +870,14 @@ IDS = ["0x1234", "1234", "0", "65535", "65536", "-1", "0xffff", "0x10000", "0XFF
 
 
 def value_pool(ty: str, name: str):
+    ok, allv = _value_pool(ty, name)
+    return ok, allv + META_POOL
+
+
+META_POOL = ["{}", "{0}", "{x}", "}", "{", "%s", "%", "%(x)s", "\\", "*", "?", "(", "[", "#", "'", '"', "`", "$x", "a{b}c", "1{}", "{}1"]
+
+
+def _value_pool(ty: str, name: str):
     if name == "host":
         return HOSTS_OK, HOSTS_NEAR
     if name == "device":
@@ -911,6 +935,13 @@ def gen_valid(rng, ifc: dict, near: float = 0.12, have=()):
     return [ifc["name"]] + parts
 
 
+# every character / token that is special to some string-processing layer the text may pass through on any path,
+# including the error path: str.format, %-formatting, regular expressions, shell / glob, quoting, escapes
+META_CHARS = list("{}%\\$*?[]()|^+.#'\"`~&;<>!@,/=-_ ") + ["\n", "\t", "\r", "\x00", "\x1b", "\x7f", "\u2028", "\ufeff", "\u0661", "\u212a", "\u0130", "\u017f", "\U0001d7d9"]
+META_TOKENS = ["{}", "{", "}", "{0}", "{1}", "{host}", "{device}", "{interface}", "{!r}", "{:d}", "{0[0]}", "{a.b}", "}{", "{{", "}}", "{{}}", "${x}", "$", "$$",
+               "%s", "%d", "%", "%%", "%(x)s", "%r", "%3", "%3A", "%25", "%n", "\\", "\\n", "\\1", "\\x00", "\\u0041", "(?P<x>", "(", ")", "()", "[a-z]", "[", "]", "[]",
+               ".*", "*", "?", "+", "^", "|", "a|b", "^$", "#", "#x", "'", "\"", "`", "'x'", "\"x\"", "`x`", "~", "&", ";", "<", ">", "..", "../x", "~/x", "None", "True", "nan"]
+
 CTRL = ["\n", "\t", "\r", "\x00", "\x1c", "\x7f", "\x85", " ", " ", "\x0b"]
 UNI_DIGITS = {str(d): [chr(0x660 + d), chr(0x966 + d), chr(0xff10 + d), chr(0x1d7ce + d)] for d in range(10)}
 
@@ -920,7 +951,8 @@ def mutate(rng, parts):
     parts = list(parts)
     n = len(parts)
     kind = rng.choice(["drop", "dup", "swap", "extra_eq", "empty", "bracket", "case", "digits", "ctrl", "nul", "lead_colon",
-                       "dollar", "surplus", "sep", "space", "trail_colon", "unknown_kw", "kw_as_pos"])
+                       "dollar", "surplus", "sep", "space", "trail_colon", "unknown_kw", "kw_as_pos",
+                       "meta_char", "meta_char", "meta_token", "meta_token", "meta_wrap", "meta_iface", "meta_kwname"])
     i = rng.randrange(1, n) if n > 1 else 0
     if kind == "drop" and n > 1:
         del parts[i]
@@ -984,6 +1016,34 @@ def mutate(rng, parts):
         return kind, ":".join(parts) + rng.choice([":", "::", ":="])
     elif kind == "unknown_kw":
         parts.insert(rng.randint(1, n), rng.choice(["foo=1", "host=h", "port=5", "device=COM1", "baudrate=5", "connect_timeout=1", "Baudrate=5", "=5", "primary_addr=1"]))
+    elif kind == "meta_char":               # a metacharacter anywhere in the text
+        sj = ":".join(parts)
+        for _ in range(rng.choice([1, 1, 2, 3])):
+            k = rng.randint(0, len(sj))
+            sj = sj[:k] + rng.choice(META_CHARS) + sj[k + (rng.random() < 0.3):]
+        return kind, sj
+    elif kind == "meta_token" and n > 1:     # a value (or a whole part) replaced by / extended with a metacharacter token
+        p = parts[i]
+        tok = rng.choice(META_TOKENS)
+        k = p.find("=") + 1
+        parts[i] = rng.choice([p[:k] + tok, p[:k] + tok + p[k:], p + tok, tok, tok + p])
+    elif kind == "meta_wrap" and n > 1:      # "{value}", "%(value)s", "$value", "'value'", ...
+        p = parts[i]
+        k = p.find("=") + 1
+        v = p[k:]
+        parts[i] = p[:k] + rng.choice(["{" + v + "}", "%(" + v + ")s", "$" + v, "${" + v + "}", "'" + v + "'", '"' + v + '"', "`" + v + "`", "(" + v + ")",
+                                      "{" + v, v + "}", "<" + v + ">", "\\" + v])
+    elif kind == "meta_iface":
+        parts[0] = rng.choice([rng.choice(META_TOKENS), parts[0] + rng.choice(META_TOKENS), rng.choice(META_TOKENS) + parts[0],
+                               "{" + parts[0] + "}", parts[0][:1] + rng.choice(META_CHARS) + parts[0][1:]])
+    elif kind == "meta_kwname" and n > 1:
+        p = parts[i]
+        tok = rng.choice(META_TOKENS)
+        if "=" in p:
+            kname, v = p.split("=", 1)
+            parts[i] = rng.choice([tok, kname + tok, tok + kname, "{" + kname + "}"]) + "=" + v
+        else:
+            parts[i] = tok + "=" + p
     elif kind == "kw_as_pos" and n > 1:
         p = parts[i]
         if "=" in p:
@@ -992,6 +1052,9 @@ def mutate(rng, parts):
 
 
 ALPHA = list(":::==[]$\n .-_0x1259") + list("abctpudserialgvxhoCOM/") + ["\x00", "١", "K", "İ", "\t", "é", "\U0001d7d9"]
+
+
+ALPHA += list("{}{}%%\\*?()|^+#'\"`")
 
 
 def gen_arbitrary(rng, ifaces):
@@ -1008,7 +1071,7 @@ def gen_arbitrary(rng, ifaces):
 ILL_TYPED_RATE = 0.1
 
 
-FOREIGN_KEYS = ["foo", "", "Host", "timeout", "hosts", "port ", "é"]
+FOREIGN_KEYS = ["foo", "", "Host", "timeout", "hosts", "port ", "é", "{}", "{port}", "%s", "po{rt", "\\", "*"]
 
 
 def gen_defaults(rng, ifc: dict, all_ifaces):
@@ -1031,9 +1094,10 @@ def gen_defaults(rng, ifc: dict, all_ifaces):
         ok, allv = value_pool(ty, name)
         if rng.random() < ILL_TYPED_RATE:
             # a value of another type than the parameter declares (a caller's mistake)
-            kinds = ["s", "i", "b", "n", "f"]
+            kinds = ["s", "i", "b", "n", "f", "o", "s"]
             k = rng.choice(kinds)
-            defs.append([name, k, {"s": rng.choice(["5", "abc", "", "True", "1.5", "N", "COM1", "h"]), "i": rng.choice([0, 1, 2, 5, 8, 35999, 70000, -1]),
+            defs.append([name, k, {"o": rng.choice(sorted(_OTHER_OBJECTS)),
+                                   "s": rng.choice(["5", "abc", "", "True", "1.5", "N", "COM1", "h"] + META_TOKENS), "i": rng.choice([0, 1, 2, 5, 8, 35999, 70000, -1]),
                                    "b": rng.choice([True, False]), "n": None, "f": rng.choice(["1.5", "2", "0.5", "1e3"])}[k]])
             continue
         for _ in range(20):
@@ -1632,6 +1696,36 @@ def fixed_corpus(tables) -> list:
     for digits in (4299, 4300, 4301):
         add("tcp:h:" + "0" * (digits - 1) + "5")
         add("gpib:" + "0" * (digits - 1) + "5", both=True)
+    # metacharacters of every string-processing layer (format, %, regex, glob, quoting) in every field, in descriptors that
+    # look well formed and in malformed ones: the error path builds messages from the user's text
+    for ifc in tables["ifaces"]:
+        name = ifc["name"]
+        both = name in ("usbtmc", "gpib")
+        good_pos = [value_pool(t2, n2)[0][0] for n2, t2, _r in ifc["positionals"]]
+        good_kw = [f"{n2}={value_pool(t2, n2)[0][0]}" for n2, t2, r2 in ifc["keywords"] if r2]
+        for tok in META_TOKENS:
+            add(f"{tok}:x", both=False)                                       # as the interface name
+            add(f"{name}{tok}:x")
+            add(f"{name}:{tok}", both=both)                                   # as the only part
+            for j in range(len(good_pos)):                                    # in place of each positional
+                add(":".join([name] + good_pos[:j] + [tok] + good_pos[j + 1:] + good_kw), both=both)
+                add(":".join([name] + good_pos[:j] + [good_pos[j] + tok] + good_pos[j + 1:] + good_kw), both=both)
+            for n2, t2, _r in ifc["keywords"]:                                # as each keyword's value and inside its name
+                base = ":".join([name] + good_pos)
+                add(f"{base}:{n2}={tok}", both=both)
+                add(f"{base}:{n2}{tok}=1")
+            add(":".join([name] + good_pos + good_kw) + ":" + tok)            # as a surplus part
+            for n2, t2, _r in ifc["positionals"] + ifc["keywords"]:           # as a default value, and as a foreign default
+                add(":".join([name] + good_kw) if good_kw else name + ":x=1", [[n2, "s", tok]])
+            add(":".join([name] + good_pos + good_kw), [[tok, "s", tok]])
+        for obj in sorted(_OTHER_OBJECTS):
+            for n2, t2, _r in ifc["positionals"] + ifc["keywords"]:
+                add(":".join([name] + good_kw) if good_kw else name + ":x=1", [[n2, "o", obj]])
+    for ch in META_CHARS:
+        for base in ("tcp:h:5", "serial:COM1:baudrate=9600", "usbtmc:vendorid=1:productid=2:serialnr=S", "vxi11:h", "udp:h:5", "gpib:1"):
+            for k in range(len(base) + 1):
+                add(base[:k] + ch + base[k:])
+
     # related names
     for ifc in tables["ifaces"]:
         name = ifc["name"]
@@ -1660,6 +1754,28 @@ def fixed_corpus(tables) -> list:
         add(valid, alld, both=True)
         add(name + ":" + (ifc["keywords"][0][0] + "=" + value_pool(ifc["keywords"][0][1], ifc["keywords"][0][0])[0][0] if ifc["keywords"] else "zz"), alld, both=True)
     return out
+
+
+def exception_class_check(text: str, rng=None):
+    """`QMI_TransportDescriptorException(text)` must not raise and must keep the text; with further arguments it must not raise."""
+    D = impl().Descr
+    try:
+        e = D(text)
+    except BaseException as x:  # noqa: BLE001
+        return (f"exception-class:construct-raises:{type(x).__name__}", f"QMI_TransportDescriptorException({text!r}) raises {type(x).__name__}: {x}")
+    try:
+        shown = str(e)
+    except BaseException as x:  # noqa: BLE001
+        return (f"exception-class:str-raises:{type(x).__name__}", f"str(QMI_TransportDescriptorException({text!r})) raises {type(x).__name__}")
+    if shown != text or e.args != (text,):
+        return ("exception-class:text-altered", f"QMI_TransportDescriptorException({text!r}): str() = {shown!r}, args = {e.args!r}")
+    for extra in (("a",), ("a", 1, None), (text,)):
+        try:
+            str(D(text, *extra))
+        except BaseException as x:  # noqa: BLE001
+            return (f"exception-class:construct-with-args-raises:{type(x).__name__}",
+                    f"QMI_TransportDescriptorException({text!r}, *{extra!r}) raises {type(x).__name__}: {x}")
+    return None
 
 
 def shrink_ct(case: dict, sig: str) -> dict:
@@ -1721,6 +1837,8 @@ class C14(Prop):
         "assignments are regenerated from the `__init__` / `_validate_*` ASTs and bound by the obligations gen_stores / gen_validators",
         "Python keyword-argument binding (bindArgs) and str.lower()/upper() on the interface and device names",
         "socket.gethostbyname('localhost') is pinned to 127.0.0.1 by the harness; sys.platform is switched by the harness",
+        "raising QMI_TransportDescriptorException is atomic in the model; obligation gen_exception_plain (the class and its qmi "
+        "bases define no __init__/__new__/__str__/__repr__) + direct test that construction from any text neither raises nor alters it",
         "strings containing lone surrogates are outside the model (Lean Char = Unicode scalar value); the oracle judges them on "
         "the implementation alone",
         "defaults of any type (str/int/bool/None/float for any parameter) are inside the model, the theorems and the generator "
@@ -1887,6 +2005,19 @@ class C14(Prop):
         res.count("surrogate_cases_oracle_only", len(sur))
         res.evaluations += len(sur)
 
+        # 3c. the exception class: constructing it from any message text must not raise and must keep the text
+        texts = list(META_TOKENS) + [c["s"] for c in corpus[:: max(1, len(corpus) // 400)]] + \
+            ["".join(rng.choice(META_CHARS + list("abc012")) for _ in range(rng.randint(0, 12))) for _ in range(ctx.scale(2000, 20000))]
+        for t in texts:
+            f = exception_class_check(t, rng)
+            res.evaluations += 1
+            if f is not None:
+                res.count("oracle_fail:" + f[0])
+                if f[0] not in seen:
+                    seen[f[0]] = True
+                    res.failures.append(Failure(f[0], f[1], {"kind": "exc", "text": t}))
+        res.count("exception_class_texts", len(texts))
+
         # 4. call histories: one defaults object shared by several calls; defaults as a read-only Mapping
         self._sequences(ctx, rng, tables, ctx.scale(5000, 60000), res, seen)
         res.extra["oracle"] = ("create_transport returns a transport of the named interface whose every parameter equals the typed "
@@ -2004,6 +2135,9 @@ class C14(Prop):
         if rp.get("kind") in ("rt_fmt", "rt_addr"):
             sub, fail = run_roundtrip(rp)
             return Failure(fail[0], fail[1], rp) if fail else None
+        if rp.get("kind") == "exc":
+            f = exception_class_check(rp["text"])
+            return Failure(f[0], f[1], rp) if f else None
         if rp.get("kind") == "seq":
             fail = run_sequence(rp)[2]
             return Failure(fail[0], fail[1], rp) if fail else None
